@@ -30,6 +30,8 @@ pub struct Pools {
     /// characters that occur after the first position of some canonical decomposition (marks, but also the
     /// ccc=0 second halves of two-part vowel signs, Hangul V/T jamo, ...)
     pub compose_tail: Vec<char>,
+    /// distinct first characters of canonical decompositions (the characters marks compose with)
+    pub compose_head: Vec<char>,
     /// ccc=0 members of compose_tail together with the first characters they compose with
     pub starter_pairs: Vec<(char, char)>,
     pub rtl: Vec<char>,
@@ -169,11 +171,17 @@ fn build_pools() -> Pools {
     // decomposition material
     let mut decomposable: Vec<char> = Vec::new();
     let mut compose_tail: Vec<char> = Vec::new();
+    let mut compose_head: Vec<char> = Vec::new();
     let mut starter_pairs: Vec<(char, char)> = Vec::new();
     for cp in norm.iter() {
         let c = char::from_u32(*cp).unwrap();
         decomposable.push(c);
         let dd: Vec<char> = ucd::nfd_icu(&c.to_string()).chars().collect();
+        if let Some(h) = dd.first() {
+            if dd.len() > 1 && !compose_head.contains(h) {
+                compose_head.push(*h);
+            }
+        }
         for w in dd.windows(2) {
             if !compose_tail.contains(&w[1]) {
                 compose_tail.push(w[1]);
@@ -232,7 +240,7 @@ fn build_pools() -> Pools {
         }
     }
     Pools {
-        general, simple, id_friendly, cased_all: ch(&cased_all), decomposable, compose_tail, starter_pairs, id_valid, ff_valid, cased, zs, nfkc_space, compat_ff, width, ctx, norm: norm_pool, rtl,
+        general, simple, id_friendly, cased_all: ch(&cased_all), decomposable, compose_tail, compose_head, starter_pairs, id_valid, ff_valid, cased, zs, nfkc_space, compat_ff, width, ctx, norm: norm_pool, rtl,
         by_bidi16, by_id, by_ff, by_gc63, by_jt, virama,
     }
 }
